@@ -238,6 +238,52 @@ def shape_dispatch(ctx, rule):
            nontrivial=False)
 
 
+def addressed_selection(ctx):
+    """In bake, an operation of a step whose destination / source may be a slice must act on that slice re-bound to
+    the current plate (a deep copy of the declared slice), not on the whole current plate."""
+    from .c09 import bake_branches, _inside, _is_operation
+    from .c08 import operand_types
+    model = ctx.model
+    bake = model.func('Recipe.bake')
+    ff = ctx.flow('Recipe.bake')
+    branches = bake_branches(ctx)
+    steps = {'remove': 'Recipe.remove', 'fill_to': 'Recipe.fill_to', 'transfer': 'Recipe.transfer'}
+    n = 0
+    for op, q in steps.items():
+        body, node = branches[op]
+        mfi = model.func(q)
+        may_slice = [p for p in mfi.param_names() if 'PlateSlicer' in (mfi.annotation(p) or '')]
+        if not may_slice:
+            continue
+        calls = [(c, s, b) for c, s, b in ff.calls if _is_operation(c.orig if hasattr(c, 'orig') else c) and _inside(s, node)]
+        for c, s, b in calls:
+            raw = c.orig if hasattr(c, 'orig') else c
+            operands = list(c.args)
+            if isinstance(c.func, ast.Attribute) and not (isinstance(raw.func.value, ast.Name) and raw.func.value.id in model.classes):
+                operands.insert(0, c.func.value)
+            plate_side = []
+            for a in operands:
+                srcs = list(deep_walk(a))
+                from_results = any(isinstance(x, ast.Subscript) and path_from_param(x.value) == ('self', ['results']) for x in srcs) or \
+                    any(isinstance(x, Ref) and (x.name.startswith('self.results[') or x.name.startswith('step.to[') or
+                                                x.name.startswith('step.frm[')) for x in srcs) or \
+                    any(getattr(x, 'pkey', '') in ('step.to[0]', 'step.frm[0]') for x in srcs)
+                if not from_results:
+                    continue
+                keeps_selection = any(isinstance(x, ast.Call) and getattr(x.func, 'id', '') == 'deepcopy' for x in srcs)
+                plate_side.append((a, keeps_selection))
+            if not plate_side:
+                continue
+            n += 1
+            bad = [show(a, 30) for a, k in plate_side if not k]
+            ctx.ob('C07.R4', bake, s.lineno, f"`{op}` branch: `{unparse(raw, 50)}` acts on the addressed selection", not bad,
+                   fact=(f"operand(s) {bad} are the whole current object even when the step addressed a slice" if bad else
+                         'every plate-side operand is the declared slice (copied) re-bound to the current plate, or the '
+                         'whole object when the step addressed it'),
+                   why='a step that addresses part of a plate is applied to every well', key=f"whole plate instead of selection in {op}")
+    floor(ctx, 'operations on possibly-sliced operands in bake', n, 3)
+
+
 def run(ctx):
     from . import c01
     from ..fresh import Fresh
@@ -294,7 +340,17 @@ def run(ctx):
     n = union_attributes(ctx, 'C07.R3', ('PlateSlicer._transfer', 'Container._transfer_slice', 'Container.transfer',
                                          'Plate.transfer'))
     ctx.count('union_attribute_reads', n)
+    # R1b both results of every per-well transfer are threaded back (C01.R2 on the plate operations)
+    before = len(ctx.obs)
+    c01.result_threading(ctx)
+    keep = []
+    for o in ctx.obs[before:]:
+        if o.func.startswith(('PlateSlicer._transfer', 'Container._transfer_slice')):
+            o.rule = 'C07.R1'
+            keep.append(o)
+    ctx.obs[before:] = keep
     # R4 one application per recipe step
+    addressed_selection(ctx)
     from .c09 import record_protocol
     before = len(ctx.obs)
     record_protocol(ctx, 'C07.R4x', once_rule='C07.R4')
